@@ -47,7 +47,7 @@ Definition applicable (s : cstate) (e : event) : bool :=
   | EHandshake | EBadHandshake => connecting s
   | EProxyOk | EProxyBad => proxy_connecting s
   | ESendFrame | EEndMessage => negb (wstate_eqb (st s) OPEN && match sst s with SGround => true | _ => false end)
-  | ESendClose _ _ | ESendMessage | ESendPing | ESendPong | EBeginMessage | ETick _ => true
+  | ESendClose _ _ | ESendMessage | ESendPrepared | ESendPing | ESendPong | EBeginMessage | ETick _ => true
   | EPeerDrop _ => negb (gone s)
   | EOwnDrop => negb (gone s) && droppedByMe s
   (* frames are read in OPEN/CLOSING; in CLOSED (transport not yet gone) octets are still delivered and ignored *)
